@@ -76,6 +76,7 @@ func traceMode(in *mbt.Input, res *mbt.Result) {
 			}
 			if n != last {
 				last, lastChange = n, time.Now()
+				dl = time.Now().Add(4 * time.Second) // only a run that stopped moving is judged
 			} else if stuckOK && time.Since(lastChange) > 60*time.Millisecond {
 				break
 			}
